@@ -132,7 +132,16 @@ pub fn tag_value_pool() -> Vec<String> {
 }
 
 pub fn db_tag() -> BoxedStrategy<Vec<String>> {
-    let val = prop::sample::select(tag_value_pool());
+    db_tag_n(0)
+}
+
+pub fn db_tag_n(n: usize) -> BoxedStrategy<Vec<String>> {
+    let mut pool = tag_value_pool();
+    if n > 0 {
+        // "x", "x\0", "xy", ... : the colliding short values first
+        pool = pool.into_iter().skip(1).take(n).collect();
+    }
+    let val = prop::sample::select(pool);
     prop_oneof![
         // single-letter tags with 1..3 strings after the name
         12 => (prop::sample::select(vec!["e", "p", "t", "a", "d"]), prop::collection::vec(val.clone(), 1..3))
@@ -152,6 +161,8 @@ pub struct EvCfg {
     pub kind_weights: [u32; 5],
     pub max_tags: usize,
     pub extreme_ids: bool,
+    /// 0 = the full tag value pool; otherwise only the first n values (so that events share tags)
+    pub tag_values: usize,
 }
 
 impl Default for EvCfg {
@@ -161,6 +172,7 @@ impl Default for EvCfg {
             kind_weights: [4, 2, 3, 1, 2],
             max_tags: 4,
             extreme_ids: true,
+            tag_values: 0,
         }
     }
 }
@@ -183,7 +195,7 @@ pub fn gen_event(cfg: EvCfg) -> BoxedStrategy<GenEvent> {
         0u8..cfg.authors,
         kind,
         time_pool(),
-        prop::collection::vec(db_tag(), 0..=cfg.max_tags),
+        prop::collection::vec(db_tag_n(cfg.tag_values), 0..=cfg.max_tags),
         prop::option::weighted(0.92, prop_oneof![
             3 => prop::sample::select(d_pool()),
             // values that the 182-byte zero-padded index key cannot tell apart
@@ -321,7 +333,15 @@ pub fn op_strategy(w: OpWeights, cfg: EvCfg) -> BoxedStrategy<Op> {
     ));
     v.push((
         w.delete_req,
-        (0u8..cfg.authors, time_pool(), prop::collection::vec(del_target(), 1..5))
+        (
+            0u8..cfg.authors,
+            time_pool(),
+            prop_oneof![
+                12 => prop::collection::vec(del_target(), 1..5),
+                // long requests (a relay accepts what fits its message size): 60..100 targets
+                1 => prop::collection::vec(del_target(), 60..100),
+            ],
+        )
             .prop_map(|(author, created_at, targets)| Op::DeleteReq { author, created_at, targets })
             .boxed(),
     ));
